@@ -158,8 +158,18 @@ func (p *Program) Verify(fn *ssa.Function, fc *FuncContract, mode Mode, primary,
 			}
 			c.assume(s)
 		}
+		// entry-time unfolds may mention named results: at entry they hold their zero values
+		uenv := e.baseEnv.child()
+		uenv.old = e.baseEnv
+		for i, rn := range fc.ResultNames {
+			if rn != "" && rn != "_" && i < fn.Signature.Results().Len() {
+				if _, taken := uenv.vars[rn]; !taken {
+					uenv.vars[rn] = e.zero(fn.Signature.Results().At(i).Type())
+				}
+			}
+		}
 		for _, u := range fc.Unfolds {
-			s, err := e.baseEnv.UnfoldSpec(u.E)
+			s, err := uenv.UnfoldSpec(u.E)
 			if err != nil {
 				e.errs = append(e.errs, fmt.Sprintf("unfold %q: %v", u.Text, err))
 				continue
